@@ -20,6 +20,21 @@ pub struct Observer<Endpoint: Display> {
     message_id: Option<u16>,
 }
 
+#[cfg(coap_lite_verif)]
+impl<Endpoint: Display> Observer<Endpoint> {
+    /// Verification hook (read-only): confirmable notifications sent since
+    /// the last acknowledgement or registration.
+    pub fn verif_unacknowledged(&self) -> u8 {
+        self.unacknowledged_messages
+    }
+
+    /// Verification hook (read-only): message id an acknowledgement has to
+    /// carry to reset the counter.
+    pub fn verif_pending_message_id(&self) -> Option<u16> {
+        self.message_id
+    }
+}
+
 /// An observed resource.
 pub struct Resource<Endpoint: Display> {
     pub observers: Vec<Observer<Endpoint>>,
